@@ -1,4 +1,314 @@
-import CaddyModel.C04.Model
+/-
+C04 — property theorems.
+
+Statement: for a usage pool used concurrently, each key has at most one live value at a time:
+its constructor runs once per live period and its destructor runs exactly once, after the last
+holder released it and never earlier.  No caller ever receives a value whose destructor has
+already run or runs before that caller's own release, a failed constructor leaves the key
+absent, and the reported reference count always equals successful acquisitions minus releases.
+
+Quantifier: all interleavings.  Here: every state `s` with `Reachable s`, i.e. reached from the
+empty pool by ANY finite sequence of lock regions (`Label`s) of ANY number of goroutines on ANY
+keys, with two explicit, decidable exclusions (`excluded`):
+  (a) a `Delete` by a caller that holds nothing (the documented client contract), and
+  (b) the `else` branch of `LoadOrStore` (taken only after the loaded entry's constructor
+      failed) — with it the property is FALSE on the unchanged code, see `Witness.lean`.
+A caller "holds" entry `e` from the region that hands it `e`'s value to the first region of its
+`Delete` (`holders`).
+-/
+import CaddyModel.C04.Step
+import CaddyModel.C04.Spec
+
 namespace CaddyModel.C04
-theorem placeholder_init : G.init.next = 0 := rfl
+
+/-- reached from the empty pool by some schedule without excluded labels -/
+def Reachable (s : G) : Prop :=
+  ∃ ls : List Label, cleanRun G.init ls = true ∧ runLabels G.init ls = some s
+
+/-- **the invariant holds in every reachable state** (induction over the schedule) -/
+theorem inv_reachable {s : G} (h : Reachable s) : Inv s := by
+  obtain ⟨ls, hc, hr⟩ := h
+  exact inv_run ls G.init s inv_init hc hr
+
+theorem reachable_step {s s' : G} {l : Label} (h : Reachable s) (hx : excluded s l = false)
+    (hs : gstep s l = some s') : Reachable s' := by
+  obtain ⟨ls, hc, hr⟩ := h
+  refine ⟨ls ++ [l], ?_, ?_⟩
+  · have : ∀ (ls : List Label) (s0 : G), cleanRun s0 ls = true → runLabels s0 ls = some s →
+        cleanRun s0 (ls ++ [l]) = true := by
+      intro ls
+      induction ls with
+      | nil =>
+        intro s0 _ hr
+        simp only [runLabels] at hr; cases hr
+        simp [cleanRun, hx, hs]
+      | cons a as ih =>
+        intro s0 hc hr
+        simp only [runLabels] at hr
+        simp only [cleanRun, Bool.and_eq_true] at hc
+        cases hg : gstep s0 a with
+        | none => rw [hg] at hr; cases hr
+        | some s1 =>
+          rw [hg] at hr
+          have hc2 := hc.2
+          rw [hg] at hc2
+          simp only [List.cons_append, cleanRun, Bool.and_eq_true, hg]
+          exact ⟨hc.1, ih s1 hc2 hr⟩
+    exact this ls G.init hc hr
+  · have : ∀ (ls : List Label) (s0 : G), runLabels s0 ls = some s → runLabels s0 (ls ++ [l]) = some s' := by
+      intro ls
+      induction ls with
+      | nil => intro s0 hr; simp only [runLabels] at hr; cases hr; simp [runLabels, hs]
+      | cons a as ih =>
+        intro s0 hr
+        simp only [runLabels] at hr
+        cases hg : gstep s0 a with
+        | none => rw [hg] at hr; cases hr
+        | some s1 => rw [hg] at hr; simp only [List.cons_append, runLabels, hg]; exact ih s1 hr
+    exact this ls G.init hr
+
+/-! ### at most one live value per key -/
+
+/-- **one live value.** Among all entries ever created for a key, at most one is in the map or
+    has a holder — and if one has a holder, it is the one in the map. -/
+theorem one_live_value {s : G} (h : Reachable s) {e e' : Nat} (he : e < s.next) (he' : e' < s.next)
+    (hk : (s.ent e).key = (s.ent e').key)
+    (hl : 0 < (s.ent e).holders ∨ inPool s e = true) (hl' : 0 < (s.ent e').holders ∨ inPool s e' = true) :
+    e = e' := by
+  have hi := inv_reachable h
+  have m1 : inPool s e = true := by
+    rcases hl with hl | hl
+    · exact (ent_holder_facts (hi.ent e he) hl).1
+    · exact hl
+  have m2 : inPool s e' = true := by
+    rcases hl' with hl | hl
+    · exact (ent_holder_facts (hi.ent e' he') hl).1
+    · exact hl
+  have p1 := pool_of_inPool m1
+  have p2 := pool_of_inPool m2
+  rw [hk, p2] at p1
+  exact (Option.some.inj p1).symm
+
+/-- a key that is absent from the map has no holder at all: the constructor of a new value
+    (which starts only in the `lnLookup` region that finds the key absent) never runs while an
+    earlier value of the key is still held -/
+theorem ctor_starts_only_when_key_unheld {s : G} (h : Reachable s) {k e : Nat} (hp : s.pool k = none)
+    (he : e < s.next) (hk : (s.ent e).key = k) : (s.ent e).holders = 0 := by
+  have hi := inv_reachable h
+  by_cases hh : 0 < (s.ent e).holders
+  · have m := (ent_holder_facts (hi.ent e he) hh).1
+    have := pool_of_inPool m
+    rw [hk, hp] at this; cases this
+  · omega
+
+/-! ### constructor once per live period -/
+
+/-- **constructor once.** The constructor of an entry completes at most once; while it runs
+    nobody holds the entry and nothing was destructed; every holder of a `LoadOrNew` entry
+    holds the result of exactly one completed constructor call. -/
+theorem ctor_once_per_live_period {s : G} (h : Reachable s) {e : Nat} (he : e < s.next) :
+    (s.ent e).ctorRuns ≤ 1
+    ∧ (0 < (s.ent e).ctor → (s.ent e).ctorRuns = 0 ∧ (s.ent e).holders = 0 ∧ (s.ent e).ctor = 1 ∧ inPool s e = true)
+    ∧ (0 < (s.ent e).holders → (s.ent e).viaCtor = true → (s.ent e).ctorRuns = 1 ∧ (s.ent e).ctor = 0) := by
+  have hE := (inv_reachable h).ent e he
+  refine ⟨(ent_once hE).2.1, ?_, ?_⟩
+  · intro hc
+    obtain ⟨hm, _, hw, h1, _, h0⟩ := ent_ctor_facts hE hc
+    obtain ⟨_, _, _, _, _, _, _, _, _⟩ := hE
+    have : (s.ent e).holders = 0 := by simp_all
+    exact ⟨h0, this, h1, hm⟩
+  · intro hh hv
+    obtain ⟨_, _, _, _, _, _, _, hc, hr⟩ := ent_holder_facts hE hh
+    exact ⟨hr hv, hc⟩
+
+/-! ### destructor exactly once, after the last release, never earlier -/
+
+/-- **destructor once, after the last release.** The destructor of an entry's value runs at most
+    once; it has run, or a `Delete` call is on its way to run it (`del2`/`del3`), only if the entry
+    left the map at reference count 0 with no holder and nobody waiting for it; and for every
+    such released entry exactly one `Delete` call owns the (single) destructor call. -/
+theorem dtor_exactly_once_after_last_release {s : G} (h : Reachable s) {e : Nat} (he : e < s.next) :
+    (s.ent e).destructed ≤ 1
+    ∧ (0 < (s.ent e).del2 + (s.ent e).del3 + (s.ent e).destructed →
+        (s.ent e).holders = 0 ∧ (s.ent e).refs = 0 ∧ inPool s e = false
+        ∧ (s.ent e).waiters = 0 ∧ (s.ent e).lsWaiters = 0)
+    ∧ (inPool s e = false → (s.ent e).err = false →
+        (s.ent e).del2 + (s.ent e).del3 + (s.ent e).destructed = 1) := by
+  have hE := (inv_reachable h).ent e he
+  refine ⟨(ent_once hE).1, ?_, ?_⟩
+  · intro hd
+    obtain ⟨hm, _, hh, hr, hw, hl, _, _, _⟩ := ent_dying_facts hE hd
+    exact ⟨hh, hr, hm, hw, hl⟩
+  · intro hm herr
+    exact (ent_released_facts hE hm herr).2.2.1
+
+/-- at quiescence (no `Delete` call in progress on the entry) a released entry's destructor has
+    run exactly once -/
+theorem released_entry_destructed_at_quiescence {s : G} (h : Reachable s) {e : Nat} (he : e < s.next)
+    (hm : inPool s e = false) (herr : (s.ent e).err = false)
+    (hq : (s.ent e).del2 = 0 ∧ (s.ent e).del3 = 0) : (s.ent e).destructed = 1 := by
+  have := (dtor_exactly_once_after_last_release h he).2.2 hm herr
+  omega
+
+/-! ### what callers receive -/
+
+/-- **not destructed before the caller's own release.** As long as a caller holds an entry, the
+    entry is the one in the map, has a value, its destructor has not run and no `Delete` call is
+    on its way to run it. -/
+theorem not_destructed_before_own_release {s : G} (h : Reachable s) {e : Nat} (he : e < s.next)
+    (hh : 0 < (s.ent e).holders) :
+    (s.ent e).destructed = 0 ∧ (s.ent e).del2 = 0 ∧ (s.ent e).del3 = 0 ∧ inPool s e = true
+      ∧ (s.ent e).value.isSome = true ∧ (s.ent e).err = false := by
+  obtain ⟨hm, hd, h2, h3, hv, herr, _, _, _⟩ := ent_holder_facts ((inv_reachable h).ent e he) hh
+  exact ⟨hd, h2, h3, hm, hv, herr⟩
+
+/-- **never returns a destructed value (LoadOrNew, loaded path).** When the second region of
+    `LoadOrNew` reads an entry without error, it hands out a non-nil value of the entry that is in
+    the map, not destructed and not about to be. -/
+theorem never_returns_destructed_lnRead {s s' : G} {e : Nat} (h : Reachable s)
+    (hs : gstep s (.lnRead e) = some s') (hok : (lnReadRet s e).2 = false) :
+    (lnReadRet s e).1.isSome = true ∧ (s.ent e).destructed = 0 ∧ (s.ent e).del2 = 0 ∧ (s.ent e).del3 = 0
+      ∧ inPool s e = true ∧ (s'.ent e).holders = (s.ent e).holders + 1 := by
+  simp only [gstep] at hs
+  split at hs
+  · rename_i hg
+    have hE := (inv_reachable h).ent e hg.1
+    have herr : (s.ent e).err = false := hok
+    obtain ⟨hm, hv, hd, h2, h3⟩ := ent_waiter_read hE (by omega) hg.2.2 herr
+    rw [herr] at hs
+    simp only [Bool.false_eq_true, if_false] at hs
+    cases hs
+    refine ⟨hv, hd, h2, h3, hm, ?_⟩
+    simp [updEnt]
+  · cases hs
+
+/-- **… LoadOrStore, loaded path** (the non-excluded branch) -/
+theorem never_returns_destructed_lsRead {s s' : G} {e v : Nat} (h : Reachable s)
+    (hs : gstep s (.lsRead e v) = some s') (hx : excluded s (.lsRead e v) = false) :
+    (lsReadRet s e).isSome = true ∧ (s.ent e).destructed = 0 ∧ (s.ent e).del2 = 0 ∧ (s.ent e).del3 = 0
+      ∧ inPool s e = true := by
+  simp only [gstep] at hs
+  simp only [excluded] at hx
+  split at hs
+  · rename_i hg
+    have hE := (inv_reachable h).ent e hg.1
+    obtain ⟨hm, hv, hd, h2, h3⟩ := ent_waiter_read hE (by omega) hg.2.2 hx
+    refine ⟨?_, hd, h2, h3, hm⟩
+    simp [lsReadRet, hx, hv]
+  · cases hs
+
+/-- a `LoadOrNew` whose (second-region) read sees the constructor's error hands out no value -/
+theorem failed_acquisition_returns_no_value {s : G} {e : Nat} (h : Reachable s) (he : e < s.next)
+    (herr : (lnReadRet s e).2 = true) : (lnReadRet s e).1 = none :=
+  (ent_failed_facts ((inv_reachable h).ent e he) herr).2.1
+
+/-! ### failed constructor -/
+
+/-- **a failed constructor leaves the key absent.** The region that removes the placeholder
+    removes *its own* placeholder (the code's "this *should* be safe, I think"), so the key is
+    absent afterwards and no other entry was touched; the failed entry never has a holder or a
+    value and is never destructed. -/
+theorem failed_ctor_leaves_absent {s s' : G} {e : Nat} (h : Reachable s)
+    (hs : gstep s (.lnFailDel e) = some s') :
+    s.pool (s.ent e).key = some e ∧ s'.pool (s.ent e).key = none
+      ∧ (∀ k, k ≠ (s.ent e).key → s'.pool k = s.pool k)
+      ∧ (s.ent e).holders = 0 ∧ (s.ent e).value = none ∧ (s.ent e).destructed = 0 := by
+  simp only [gstep] at hs
+  split at hs
+  · rename_i hg
+    have hE := (inv_reachable h).ent e hg.1
+    obtain ⟨hm, herr, _, _⟩ := ent_failing_facts hE hg.2.1
+    obtain ⟨hh, hv, hd, _, _⟩ := ent_failed_facts hE herr
+    cases hs
+    refine ⟨pool_of_inPool hm, by simp [updEnt, setPool], ?_, hh, hv, hd⟩
+    intro k hk
+    simp [updEnt, setPool, hk]
+  · cases hs
+
+theorem failed_entry_is_inert {s : G} (h : Reachable s) {e : Nat} (he : e < s.next)
+    (herr : (s.ent e).err = true) :
+    (s.ent e).holders = 0 ∧ (s.ent e).value = none ∧ (s.ent e).destructed = 0 :=
+  let ⟨a, b, c, _, _⟩ := ent_failed_facts ((inv_reachable h).ent e he) herr
+  ⟨a, b, c⟩
+
+/-! ### the reference count -/
+
+/-- **refs = acquisitions − releases.** `refs` of every entry equals the number of callers that
+    incremented it and have not decremented it: constructing + failing + waiting + holding (+ the
+    increments of acquisitions that ended in an error, which exist only on entries no longer in
+    the map). -/
+theorem refs_eq_acq_minus_rel {s : G} (h : Reachable s) {e : Nat} (he : e < s.next) :
+    (s.ent e).refs = (((s.ent e).ctor + (s.ent e).failing + (s.ent e).waiters + (s.ent e).lsWaiters
+        + (s.ent e).holders + (s.ent e).deadRefs : Nat) : Int) :=
+  ((inv_reachable h).ent e he).1
+
+/-- what `References(k)` (evaluated atomically) reports: the holders of the key plus the calls
+    in flight on the entry, at least 1; and an absent key has no holder. -/
+theorem references_report {s : G} (h : Reachable s) (k : Nat) :
+    match refsNow s k with
+    | some r => ∃ e, s.pool k = some e ∧ e < s.next ∧ 1 ≤ r ∧
+        r = (((s.ent e).holders + ((s.ent e).ctor + (s.ent e).failing + (s.ent e).waiters + (s.ent e).lsWaiters) : Nat) : Int)
+    | none => ∀ e, e < s.next → (s.ent e).key = k → (s.ent e).holders = 0 := by
+  have hi := inv_reachable h
+  unfold refsNow
+  cases hp : s.pool k with
+  | none =>
+    simp only [Option.map]
+    intro e he hk
+    exact ctor_starts_only_when_key_unheld h hp he hk
+  | some e =>
+    simp only [Option.map]
+    obtain ⟨he, _⟩ := hi.pool k e hp
+    obtain ⟨h1, h2, _⟩ := ent_mapped_refs (hi.ent e he) (inPool_of_pool hi hp)
+    refine ⟨e, rfl, he, h2, ?_⟩
+    rw [h1]; congr 1; omega
+
+/-- at quiescence (no acquisition in flight on the entry) `References(k)` = number of holders -/
+theorem references_exact_at_quiescence {s : G} (h : Reachable s) {k e : Nat} (hp : s.pool k = some e)
+    (hq : (s.ent e).ctor = 0 ∧ (s.ent e).failing = 0 ∧ (s.ent e).waiters = 0 ∧ (s.ent e).lsWaiters = 0) :
+    refsNow s k = some ((s.ent e).holders : Int) := by
+  have hi := inv_reachable h
+  obtain ⟨he, _⟩ := hi.pool k e hp
+  obtain ⟨h1, _⟩ := ent_mapped_refs (hi.ent e he) (inPool_of_pool hi hp)
+  simp only [refsNow, hp, Option.map]
+  rw [h1]; congr 2; omega
+
+/-- `Delete` by a holder finds the holder's entry, never underflows (no panic), and removes the
+    entry exactly when the count reaches 0 -/
+theorem delete_never_panics {s : G} (h : Reachable s) {k e : Nat} (he : e < s.next)
+    (hh : 0 < (s.ent e).holders) (hk : (s.ent e).key = k) :
+    s.pool k = some e ∧ 0 ≤ (s.ent e).refs - 1 := by
+  obtain ⟨hm, _, _, hr⟩ := ent_holder_mapped ((inv_reachable h).ent e he) hh
+  refine ⟨?_, by omega⟩
+  rw [← hk]; exact pool_of_inPool hm
+
+/-- `References`, second region (the atomic load, after the pool lock was released): if the entry
+    is still in the map the count is ≥ 1 and is the count of the key.  (Without that hypothesis the
+    clause fails on the unchanged code: `Witness.references_full_fails`.) -/
+theorem references_partial {s : G} (h : Reachable s) {e : Nat} (he : e < s.next)
+    (hm : inPool s e = true) :
+    1 ≤ refs2Ret s e ∧ refsNow s (s.ent e).key = some (refs2Ret s e) := by
+  have hi := inv_reachable h
+  obtain ⟨_, h2, _⟩ := ent_mapped_refs (hi.ent e he) hm
+  refine ⟨h2, ?_⟩
+  simp [refsNow, pool_of_inPool hm, refs2Ret]
+
+/-! ### non-vacuity: concrete reachable states (kernel-evaluated) -/
+
+/-- A: LoadOrNew(0) constructs; B: LoadOrNew(0) loads; A: Delete; B: Delete … destructor -/
+def exRun : List Label :=
+  [.lnLookup 0, .lnLookup 0, .ctorOk 0, .lnRead 0, .del1 0 (some 0), .del1 0 (some 0), .del2 0, .del3 0]
+
+example : cleanRun G.init exRun = true := by decide
+example : (runLabels G.init exRun).map (fun s => ((s.ent 0).destructed, (s.ent 0).refs, inPool s 0)) = some (1, 0, false) := by decide
+-- two holders, refs = 2, in the map, not destructed (hypotheses of the holder theorems are inhabited)
+example : (runLabels G.init (exRun.take 4)).map (fun s => ((s.ent 0).holders, (s.ent 0).refs, inPool s 0, (s.ent 0).destructed))
+    = some (2, 2, true, 0) := by decide
+-- a failing constructor with a waiter: the waiter reads the error, the key is absent
+example : (runLabels G.init [.lnLookup 0, .lnLookup 0, .ctorErr 0, .lnFailDel 0, .lnRead 0]).map
+    (fun s => (s.pool 0, (s.ent 0).holders, (s.ent 0).refs, (s.ent 0).deadRefs)) = some (none, 0, 2, 2) := by decide
+-- a released entry and a new live entry of the same key
+example : (runLabels G.init [.lsLookup 0, .del1 0 (some 0), .lsLookup 0]).map
+    (fun s => (s.pool 0, (s.ent 0).del2, (s.ent 1).holders)) = some (some 1, 1, 1) := by decide
+
 end CaddyModel.C04
